@@ -332,6 +332,30 @@ static std::string handle(const std::vector<std::string>& f)
             ly.add(*y);
             return only_hash(x, y, lx, ly);
         }
+        if (name == "TS") // tuple<int, shared_ptr<string>>: a smart pointer inside a tuple still hashes its pointee
+        {
+            auto mk = [](const std::vector<std::string>& t, Leafs& l) {
+                auto v = std::make_tuple(std::stoi(t.at(0)), std::make_shared<std::string>(nv::unhex(t.at(1))));
+                l.add(std::get<0>(v));
+                l.add(*std::get<1>(v));
+                return v;
+            };
+            auto x = mk(tx, lx);
+            auto y = mk(ty, ly);
+            return only_hash(x, y, lx, ly);
+        }
+        if (name == "PU") // pair<unique_ptr<int>, int>
+        {
+            auto mk = [](const std::vector<std::string>& t, Leafs& l) {
+                auto v = std::make_pair(std::make_unique<int>(std::stoi(t.at(0))), std::stoi(t.at(1)));
+                l.add(*v.first);
+                l.add(v.second);
+                return v;
+            };
+            auto x = mk(tx, lx);
+            auto y = mk(ty, ly);
+            return only_hash(x, y, lx, ly);
+        }
         if (name == "G") // empty tuple
         {
             std::tuple<> x, y;
